@@ -237,6 +237,14 @@ func trigger(r msgRow, eo []z.ExecOption) []*z.ZogIssue {
 		req, _ := http.NewRequest("POST", "/x", bytes.NewReader([]byte("a=%zz")))
 		req.Header.Set("Content-Type", "application/x-www-form-urlencoded")
 		return flat(z.Struct(z.Schema{"a": z.Int()}).Parse(zhttp.Request(req), &d, eo...))
+	case "struct.null_json":
+		var d struct{ A int }
+		req, _ := http.NewRequest("POST", "/x", bytes.NewReader([]byte("null")))
+		req.Header.Set("Content-Type", "application/json")
+		return flat(z.Struct(z.Schema{"a": z.Int()}).Parse(zhttp.Request(req), &d, eo...))
+	case "struct.ptr.null_json":
+		var p *struct{ A int }
+		return flat(z.Ptr(z.Struct(z.Schema{"a": z.Int()})).NotNil().Parse(zjson.Decode(strings.NewReader(" null ")), &p, eo...))
 	case "struct.ptr.invalid_json":
 		var p *struct{ A int }
 		req, _ := http.NewRequest("POST", "/x", bytes.NewReader([]byte("{broken")))
@@ -472,8 +480,14 @@ func cmdMsgTab(args []string) {
 		conf.IssueFormatter = defaultFmt
 		eo := []z.ExecOption{}
 		if strings.HasPrefix(r.Glob, "i18n") {
+			if r.Glob == "i18n:es-after-custom-key" {
+				// an earlier installation used another context key for the language; this one is a plain installation
+				i18n.SetLanguagesErrsMap(map[string]zconst.LangMap{"en": prefixed(en.Map, "[old-en] "), "es": prefixed(es.Map, "[old-es] ")}, "en", i18n.WithLangKey("locale"))
+			}
 			i18n.SetLanguagesErrsMap(map[string]zconst.LangMap{"en": prefixed(en.Map, "[en] "), "es": prefixed(es.Map, "[es] ")}, "en")
 			switch r.Glob {
+			case "i18n:es-after-custom-key":
+				eo = append(eo, z.WithCtxValue(i18n.LangKey, "es"), z.WithCtxValue("locale", "en"))
 			case "i18n:es":
 				eo = append(eo, z.WithCtxValue(i18n.LangKey, "es"))
 			case "i18n:xx":
@@ -502,7 +516,7 @@ func cmdMsgTab(args []string) {
 				keys = append(keys, k)
 			}
 			sort.Strings(keys)
-			o := msgObs{ID: fmt.Sprintf("m%d", n), Row: r.ID, Code: i.Code, Dtype: i.Dtype, Params: keys, HasValue: i.Value != nil || r.Test == "required" || strings.HasSuffix(r.Test, "not_nil") || strings.Contains(r.Test, "invalid_"), // absent values / undecodable bodies have no value to point at
+			o := msgObs{ID: fmt.Sprintf("m%d", n), Row: r.ID, Code: i.Code, Dtype: i.Dtype, Params: keys, HasValue: i.Value != nil || r.Test == "required" || strings.HasSuffix(r.Test, "not_nil") || (strings.Contains(r.Test, "invalid_") || strings.Contains(r.Test, "null_json")), // absent values / undecodable bodies have no value to point at
 				Msg: i.Message, Placeholder: strings.Contains(i.Message, "{{"), Src: msgSource(i.Message)}
 			b, _ := json.Marshal(o)
 			w.Write(b)
